@@ -300,9 +300,10 @@ def ppf_tie_margins(drv, k, a, b, c, o, convex, levels):
     return [None if x is None else C.unhex(x[1]) for x in r]
 
 
-def model_avg(drv, a, b, c, o, convex, mn, n):
-    r = drv.run([("quad.navg", f"{Q.nparams_line(a, b, c, o, convex)} {Q.mn_tok(mn)} - {C.flist([n])}")])[0]
-    if r is None or r[0] == "fail":
+def model_avg(drv, a, b, c, o, convex, mn, n, cap=16):
+    """the Lean model of the documented loop, with a budget of 2^cap integrand evaluations"""
+    r = drv.run([("quad.navg", f"{Q.nparams_line(a, b, c, o, convex)} {Q.mn_tok(mn)} - {cap} {C.flist([n])}")])[0]
+    if r is None or r[0] in ("fail", "capped"):
         return None
     return dict(rounds=int(r[0]), value=C.unhex(r[1]), errs=[C.unhex(t) for t in r[2:]])
 
